@@ -325,7 +325,7 @@ func checkScanStream(e *epochRun, si int, s *Stream, add func(class, op, detail 
 				// Scan consumes only part of such a token: this call is judged
 				// against that part, the following ones are not
 				if !(errAt >= 0 && errAt <= tk.end) && r.Err == nil {
-					if s2 := judgeScan(tk.text, e.ep.Mode, nil, r.D[0]); s2 != "" {
+					if s2 := judgeScan(tk.text, e.ep.Mode, nil, r.D[0], false); s2 != "" {
 						add(VWrong, "Fscan", fmt.Sprintf("token %d of the stream: %s", j+1, s2), ti, oi)
 					}
 				}
